@@ -3,6 +3,8 @@ package props
 import (
 	"fmt"
 	"strings"
+	"sync"
+	"sync/atomic"
 	"testing"
 	"time"
 
@@ -122,61 +124,90 @@ func c19Exec(c c19Case, st *lab.Stats) *lab.Fail {
 			}
 		}()
 	}
+	// the binds of a case are independent: they run at the same time on their own connections
+	results := make([]*lab.Fail, len(c.Binds))
+	var wgb sync.WaitGroup
+	var inconclusive atomic.Value
 	for i, b := range c.Binds {
-		want := c19Model(c, b)
-		st.Case(c19Nontrivial(c, b), lab.JSONKey([]interface{}{c.Users, c.Anon, b.DN, b.PW}), "transport="+b.Transport,
-			fmt.Sprintf("expect-success=%v", want), fmt.Sprintf("anon=%v", c.Anon), fmt.Sprintf("raw=%v", b.Raw), fmt.Sprintf("via-defaults=%v", c.ViaDefaults))
-		h, err := get(dirFor(b.Transport))
-		if err != nil {
+		// directories are created/reconfigured before the concurrent part
+		if _, err := get(dirFor(b.Transport)); err != nil {
 			st.Inconclusive(err.Error())
 			return nil
 		}
-		var code int64 = -1
-		if b.Raw && b.Transport == "plain" {
-			cl, err := lab.Dial(h.addr())
-			if err != nil {
-				st.Inconclusive(err.Error())
+		_ = i
+	}
+	for i, b := range c.Binds {
+		wgb.Add(1)
+		go func(i int, b c19Bind) {
+			defer wgb.Done()
+			results[i] = func() *lab.Fail {
+				want := c19Model(c, b)
+				st.Case(c19Nontrivial(c, b), lab.JSONKey([]interface{}{c.Users, c.Anon, b.DN, b.PW}), "transport="+b.Transport,
+					fmt.Sprintf("expect-success=%v", want), fmt.Sprintf("anon=%v", c.Anon), fmt.Sprintf("raw=%v", b.Raw), fmt.Sprintf("via-defaults=%v", c.ViaDefaults))
+				h, err := get(dirFor(b.Transport))
+				if err != nil {
+					inconclusive.Store(err.Error())
+					return nil
+				}
+				var code int64 = -1
+				if b.Raw && b.Transport == "plain" {
+					cl, err := lab.Dial(h.addr())
+					if err != nil {
+						inconclusive.Store(err.Error())
+						return nil
+					}
+					req := ReqSpec{Req: wire.Req{Kind: "bind", MsgID: int64(7 + i), Version: 3, DN: []byte(b.DN), Password: []byte(b.PW)}}
+					_ = cl.Send(req.Bytes())
+					m, err := cl.Next(10 * time.Second)
+					if err != nil {
+						cl.Close()
+						return lab.Failf("bind-no-answer", "bind %q/%q got no answer: %v", b.DN, b.PW, err)
+					}
+					res, err := m.Result()
+					cl.Close()
+					if err != nil || m.OpTag != wire.AppBindResponse || m.ID != int64(7+i) {
+						return lab.Failf("bind-bad-response", "bind response malformed: tag=%d id=%d err=%v", m.OpTag, m.ID, err)
+					}
+					code = res.Code
+				} else {
+					conn, err := h.dial(b.Transport)
+					if err != nil {
+						inconclusive.Store("dial " + b.Transport + ": " + err.Error())
+						return nil
+					}
+					conn.SetTimeout(10 * time.Second)
+					_, err = conn.SimpleBind(&ldap.SimpleBindRequest{Username: b.DN, Password: b.PW, AllowEmptyPassword: true})
+					conn.Close()
+					if err == nil {
+						code = 0
+					} else if le, ok := err.(*ldap.Error); ok && le.ResultCode < 200 {
+						code = int64(le.ResultCode)
+					} else {
+						return lab.Failf("bind-no-answer", "bind %q/%q over %s failed without an LDAP result: %v", b.DN, b.PW, b.Transport, err)
+					}
+				}
+				desc := fmt.Sprintf("bind dn=%q pw=%q over %s (anonymous binds allowed=%v, users=%+v)", b.DN, b.PW, b.Transport, c.Anon, c.Users)
+				if want && code != 0 {
+					return lab.Failf("bind-refused", "%s: result %d, the reference predicate says success", desc, code)
+				}
+				if !want && code == 0 {
+					return lab.Failf("bind-accepted", "%s: result success, the reference predicate says invalidCredentials", desc)
+				}
+				if !want && code != 49 {
+					return lab.Failf("bind-wrong-code", "%s: result %d, want invalidCredentials (49)", desc, code)
+				}
 				return nil
-			}
-			req := ReqSpec{Req: wire.Req{Kind: "bind", MsgID: int64(7 + i), Version: 3, DN: []byte(b.DN), Password: []byte(b.PW)}}
-			_ = cl.Send(req.Bytes())
-			m, err := cl.Next(10 * time.Second)
-			if err != nil {
-				cl.Close()
-				return lab.Failf("bind-no-answer", "bind %q/%q got no answer: %v", b.DN, b.PW, err)
-			}
-			res, err := m.Result()
-			cl.Close()
-			if err != nil || m.OpTag != wire.AppBindResponse || m.ID != int64(7+i) {
-				return lab.Failf("bind-bad-response", "bind response malformed: tag=%d id=%d err=%v", m.OpTag, m.ID, err)
-			}
-			code = res.Code
-		} else {
-			conn, err := h.dial(b.Transport)
-			if err != nil {
-				st.Inconclusive("dial " + b.Transport + ": " + err.Error())
-				return nil
-			}
-			conn.SetTimeout(10 * time.Second)
-			_, err = conn.SimpleBind(&ldap.SimpleBindRequest{Username: b.DN, Password: b.PW, AllowEmptyPassword: true})
-			conn.Close()
-			if err == nil {
-				code = 0
-			} else if le, ok := err.(*ldap.Error); ok && le.ResultCode < 200 {
-				code = int64(le.ResultCode)
-			} else {
-				return lab.Failf("bind-no-answer", "bind %q/%q over %s failed without an LDAP result: %v", b.DN, b.PW, b.Transport, err)
-			}
-		}
-		desc := fmt.Sprintf("bind dn=%q pw=%q over %s (anonymous binds allowed=%v, users=%+v)", b.DN, b.PW, b.Transport, c.Anon, c.Users)
-		if want && code != 0 {
-			return lab.Failf("bind-refused", "%s: result %d, the reference predicate says success", desc, code)
-		}
-		if !want && code == 0 {
-			return lab.Failf("bind-accepted", "%s: result success, the reference predicate says invalidCredentials", desc)
-		}
-		if !want && code != 49 {
-			return lab.Failf("bind-wrong-code", "%s: result %d, want invalidCredentials (49)", desc, code)
+			}()
+		}(i, b)
+	}
+	wgb.Wait()
+	if v := inconclusive.Load(); v != nil {
+		st.Inconclusive(v.(string))
+		return nil
+	}
+	for _, f := range results {
+		if f != nil {
+			return f
 		}
 	}
 	return nil
@@ -231,7 +262,7 @@ func genC19(viaDefaults bool) func(t *rapid.T) c19Case {
 	}
 }
 
-const c19Rule = "user sets of 0..6 entries over a DN pool with prefixes / extensions / case variants / duplicates, password attribute missing, [], [\"\"], one or several values, both anonymous-bind settings (SetAllowAnonymousBind; part defaults: WithDefaults at Start), bind DNs and passwords from the pool, variants of user DNs, empty and random, over plain / TLS / StartTLS with go-ldap SimpleBind(AllowEmptyPassword) and the raw independent client; oracle = success iff (pw empty and anonymous allowed) or exists user with DN == bind DN and first password value == pw, else invalidCredentials; non-trivial = bind DN is a prefix/extension/case variant of a user DN, or password equals a non-first value, or is empty; distinct by hash of (users, anon, dn, pw)"
+const c19Rule = "user sets of 0..6 entries over a DN pool with prefixes / extensions / case variants / duplicates, password attribute missing, [], [\"\"], one or several values, both anonymous-bind settings (SetAllowAnonymousBind; part defaults: WithDefaults at Start), bind DNs and passwords from the pool, variants of user DNs, empty and random, over plain / TLS / StartTLS with go-ldap SimpleBind(AllowEmptyPassword) and the raw independent client, the 1..8 binds of a case running at the same time on their own connections; oracle = success iff (pw empty and anonymous allowed) or exists user with DN == bind DN and first password value == pw, else invalidCredentials; non-trivial = bind DN is a prefix/extension/case variant of a user DN, or password equals a non-first value, or is empty; distinct by hash of (users, anon, dn, pw)"
 
 func TestC19(t *testing.T) {
 	lab.Prop[c19Case]{ID: "C19", Part: "set", Rule: "rapid: " + c19Rule, Gen: genC19(false), Exec: c19Exec}.Run(t)
